@@ -129,16 +129,24 @@ def check(model: Model, run: Run) -> None:
     # nothing rejects leftover data
     from ..resolve import Resolver
     rs = Resolver(model)
+    from ..srcmodel import dominating_literals
     for fq, fi in list(model.functions.items()):
         if isinstance(fi.node, ast.Lambda) or fi.module == ASN1:
             continue
+        env = rs.env(fi)
+        readers = {k for k, v in env.items() if rs.strip_opt(v) == ("inst", f"{ASN1}.ASN1Reader")}
+        if not readers:
+            continue
         for n in walk_no_nested(fi.node):
-            if isinstance(n, ast.If) and n.body and isinstance(n.body[0], ast.Raise):
-                names = [x for x in ast.walk(n.test) if isinstance(x, ast.Name)]
-                for x in names:
-                    if rs.strip_opt(rs.type_of(x, fi)) == ("inst", f"{ASN1}.ASN1Reader") and not any(isinstance(c, ast.Call) for c in ast.walk(n.test)):
-                        run.ob("V4-no-rejection-of-leftover-data", False)
-                        run.fail(Finding("V4-no-rejection-of-leftover-data", fq, norm(n.test), f"{fi.name} raises when reader `{x.id}` still has data: trailing elements must be ignored", model.loc(fi.module, n)))
+            if not isinstance(n, ast.Raise):
+                continue
+            lits = dominating_literals(fi.node, n, include_loops=False)
+            for l in lits:
+                # the raise is only reached while the reader still holds data: `if reader:` / `reader.get_remaining_data()` ...
+                hit = next((r for r in readers if l == r or l.startswith(f"{r}.get_remaining_data()") or l.startswith(f"len({r}.get_remaining_data())") and not l.endswith("== 0")), None)
+                if hit:
+                    run.ob("V4-no-rejection-of-leftover-data", False)
+                    run.fail(Finding("V4-no-rejection-of-leftover-data", fq, l, f"{fi.name} raises when reader `{hit}` still has data: trailing elements must be ignored", model.loc(fi.module, n)))
     run.ob("V4-no-rejection-of-leftover-data", True)
     finish_with_errors(ex, run)
 
